@@ -204,3 +204,19 @@ package wallet
 //@   tags C19
 //@   requires w != nil && w.db != nil && w.mints != nil && winv()
 //@   calls (*Wallet).createBlindedMessages asserts @fresh [C19] counter == nil || *counter >= wal.signedupto[keysetId]
+
+// Receive paths (C19, increment only): after the swap the stored counter of the request's keyset is
+// advanced by exactly the number of outputs of that request. (That these outputs were derived from
+// the stored counter of the same keyset is createSwapRequest's code and is not under contract: the
+// request carries an interior pointer to the mint's active keyset, outside the modelled subset.)
+//@ func (*Wallet).Receive
+//@   tags C19
+//@   requires w != nil && w.db != nil && w.mints != nil && winv()
+//@   calls (storage.WalletDB).IncrementKeysetCounter asserts @count [C19] keysetId == req.keyset.Id && num == len(req.outputs) % 4294967296
+//@ func (*Wallet).ReceiveHTLC
+//@   tags C19
+//@   requires w != nil && w.db != nil && w.mints != nil && winv()
+//@   calls (storage.WalletDB).IncrementKeysetCounter asserts @count [C19] keysetId == req.keyset.Id && num == len(req.outputs) % 4294967296
+//@ func (*Wallet).ReclaimUnspentProofs
+//@   tags C19
+//@   calls (storage.WalletDB).IncrementKeysetCounter asserts @count [C19] keysetId == req.keyset.Id && num == len(req.outputs) % 4294967296
